@@ -324,11 +324,9 @@ def replay_row(r):
     return REPLAY.get(r)
 
 
-LEVEL = {}
-
-
 def level(pid):
-    return LEVEL.get(pid, 'proof')
+    import claims
+    return claims.CHECKS[pid]['category'] if pid in claims.CHECKS else 'other'
 
 
 ASSUMPTIONS = {
